@@ -45,7 +45,7 @@ theorem opened_good (disk : List (String × GRec)) (hk : (AL.keys disk).Nodup)
         | some v => simpa [AL.keys] using AL.mem_keys_of_get? hg
     · intro k r hl; simp [opened] at hl
   · exact uniInv_none _
-  · intro n r hn
+  · intro n r hn _
     rw [habs] at hn
     exact hr _ (AL.mem_of_get? hn)
 
